@@ -82,6 +82,12 @@ def _run_pred(ctx: Ctx, pred, contents, key='C', dag_nodes=('C', 'O'), stubs=Non
             graph = AObj(('ext', 'networkx.DiGraph'), {'nodes': {k: dict(v) for k, v in nodes.items()},
                                                        'edges': {k: dict(v) for k, v in edges.items()}})
         mgr, storage, adag = _abstract_world(ctx, contents, dag_nodes, key, graph=graph)
+        if graph_spec is not None:
+            # the sub-dag the predicate is evaluated for: the filtered view (no case_branch edges) restricted to its nodes
+            nodes, edges = graph_spec
+            adag.attrs['nodes'] = {k: dict(nodes.get(k, {})) for k in dag_nodes}
+            adag.attrs['edges'] = {k: dict(v) for k, v in edges.items()
+                                   if k[0] in dag_nodes and k[1] in dag_nodes and 'case_branch' not in v}
         interp = Interp(ctx.p, oracle, stubs=stubs)
         envs: Dict[int, dict] = {}
 
@@ -501,12 +507,9 @@ def rule_contained_failures(ctx: Ctx, out: Collector) -> None:
                     props={'C10'})
 
 
-def rule_kwargs_semantics(ctx: Ctx, out: Collector) -> None:
-    """RD-3 (argument delivery) / RD-4: the argument builder of the run manager, interpreted over a small abstract
-    graph and store, returns exactly one entry per incoming edge that carries a kwarg_name, named after it, whose value
-    is the stored result of the predecessor (of the selected case for a switch predecessor); edges without a name add
-    nothing; the hand-over value of a recurrent start node is added under its own key; and for the input node the
-    result equals the caller's input_kwargs without being that very dictionary."""
+def argument_builder(ctx: Ctx) -> FuncUnit:
+    """The manager method that turns the incoming edges of a node into its keyword arguments (the outermost one when it
+    is split into helpers)."""
     mgr_cls = ctx.manager_class()
     def mentions_kwarg_name(u: FuncUnit) -> bool:
         return any(isinstance(n, ast.Attribute) and n.attr == 'kwarg_name' for n in ast.walk(u.node))
@@ -534,7 +537,17 @@ def rule_kwargs_semantics(ctx: Ctx, out: Collector) -> None:
     if len(outer) != 1:
         raise AnalysisError(f'argument builder (edges\' kwarg_name -> dictionary) not found: candidates {[m.qualname for m in outer]} '
                             f'(RD-3b / RD-4 anchor vanished)')
-    target = outer[0]
+    return outer[0]
+
+
+def rule_kwargs_semantics(ctx: Ctx, out: Collector) -> None:
+    """RD-3 (argument delivery) / RD-4: the argument builder of the run manager, interpreted over a small abstract
+    graph and store, returns exactly one entry per incoming edge that carries a kwarg_name, named after it, whose value
+    is the stored result of the predecessor (of the selected case for a switch predecessor); edges without a name add
+    nothing; the hand-over value of a recurrent start node is added under its own key; and for the input node the
+    result equals the caller's input_kwargs without being that very dictionary."""
+    mgr_cls = ctx.manager_class()
+    target = argument_builder(ctx)
     m = target
     case_cls = next((ci for ci in ctx.p.classes_by_name.get('CaseResult', []) if ci.module.name.startswith('ml_pipeline_engine')), None)
     if case_cls is None:
@@ -680,3 +693,88 @@ def rule_switch_indirection_semantic(ctx: Ctx, out: Collector) -> None:
         for i in sub.instances:
             if i.rule == 'SW-3':
                 out.instances.append(i)
+
+
+def rule_ready_vs_active_subgraph(ctx: Ctx, out: Collector) -> None:
+    """RD-2 (superseded iterations): a node outside a recurrent subgraph that consumes a node *inside* it must not start
+    while that subgraph is still iterating - the value it would read belongs to an iteration that may be superseded.
+    World: S -> P -> D is a recurrent subgraph that is active (its marker is set), P holds a visible value, N consumes P
+    and is not on a path S -> D.  The readiness predicate of N must be false."""
+    n = 0
+    seen = set()
+    for fid, g in ctx.run_graphs().items():
+        for lp, region, wait in launch_loops(ctx, g):
+            if wait is None:
+                continue
+            pred = wait.info.get('pred')
+            if pred is None:
+                raise AnalysisError(f'readiness predicate at {wait.where()} cannot be resolved')
+            unit = pred[0]
+            if unit.fid in seen:
+                continue
+            seen.add(unit.fid)
+            n += 1
+            nodes = {'I': {}, 'S': {}, 'P': {}, 'D': {'start_node': 'S', 'max_iterations': 3}, 'N': {}}
+            edges = {('I', 'S'): {'kwarg_name': 'num'}, ('S', 'P'): {'kwarg_name': 'a'}, ('P', 'D'): {'kwarg_name': 'b'},
+                     ('P', 'N'): {'kwarg_name': 'm'}}
+            contents = {'node_results': {'S': ('visible', 1), 'P': ('visible', 1), 'D': ('hidden', value_token(ctx.p, 'REC'))},
+                        'processed_nodes': {('S', 'D'): ('visible', None), 'S': ('visible', None), 'P': ('visible', None)}}
+            try:
+                outs = _run_pred(ctx, pred, contents, key='N', dag_nodes=('I', 'S', 'P', 'D', 'N'), graph_spec=(nodes, edges))
+            except AnalysisError as ex:
+                raise AnalysisError(f'{unit.fid}: {ex}')
+            vals = sorted({o[1] if o[0] == 'value' else f'raises {o[1]}' for o in outs}, key=str)
+            cons = f'{unit.module.name}::{unit.qualname}::ready(predecessor inside an active recurrent subgraph)'
+            if vals == [False]:
+                out.ok('RD-2', cons, wait.where(), 'a consumer outside the subgraph waits until the subgraph has finished')
+            else:
+                out.bad('RD-2', cons, wait.where(),
+                        f'readiness is {vals} for a node that consumes an intermediate node of a recurrent subgraph which is still iterating: '
+                        f'every execution of the inner node publishes its value to all descendants, the outside consumer starts with the '
+                        f'value of whichever iteration is current when its other inputs arrive and is never re-executed - it can receive a '
+                        f'value from a superseded iteration', props={'C03', 'C11'})
+    if n == 0:
+        raise AnalysisError('no readiness predicate found (RD-2 anchor vanished)')
+
+
+def rule_kwargs_hidden_verdict(ctx: Ctx, out: Collector) -> None:
+    """RD-3 (re-armed switch): the argument builder reads plain predecessor results including hidden (re-armed) ones; it
+    must read the verdict of a switch predecessor with the same visibility, or a consumer outside a recurrent subgraph
+    that was already released crashes on a verdict hidden by the next re-iteration."""
+    mgr_cls = ctx.manager_class()
+    case_cls = next((ci for ci in ctx.p.classes_by_name.get('CaseResult', []) if ci.module.name.startswith('ml_pipeline_engine')), None)
+    target = None
+    for m in mgr_cls.methods.values():
+        if not m.is_async and len(m.params()) == 2 and any(isinstance(n, ast.Attribute) and n.attr == 'kwarg_name' for n in ast.walk(m.node)) \
+                and any(isinstance(n, ast.Return) and n.value is not None for n in ast.walk(m.node)):
+            target = m
+    if target is None or case_cls is None:
+        raise AnalysisError('argument builder not found (RD-3 anchor vanished)')
+    # prefer the outermost builder (the one that also serves the input node)
+    for m in mgr_cls.methods.values():
+        if not m.is_async and len(m.params()) == 2 and any(isinstance(n, ast.Attribute) and n.attr == 'input_kwargs' for n in ast.walk(m.node)):
+            target = m
+    m = target
+
+    def run(oracle: Oracle):
+        contents = {'node_results': {'P': ('visible', 11), 'C': ('hidden', 22)},
+                    'switch_results': {'SW': ('hidden', AObj(case_cls, {'label': 'a', 'node_id': 'C'}))}}
+        mgr, storage, adag = _abstract_world(ctx, contents, dag_nodes=('I', 'P', 'SW', 'C', 'N'), dest='N')
+        nodes = {'I': {}, 'P': {}, 'C': {}, 'N': {}, 'SW': {'is_switch': True}}
+        edges = {('P', 'N'): {'kwarg_name': 'x'}, ('SW', 'N'): {'kwarg_name': 'y'}, ('C', 'SW'): {'case_branch': 'a'}}
+        mgr.attrs['dag'].attrs['graph'] = AObj(('ext', 'networkx.DiGraph'), {'nodes': nodes, 'edges': edges})
+        mgr.attrs['dag'].attrs['input_node'] = 'I'
+        mgr.attrs['ctx'] = AObj(('ext', 'Context'), {'input_kwargs': {}})
+        interp = Interp(ctx.p, oracle)
+        return interp.call_unit(m, ['N'], {}, mgr, None)
+    outs = enumerate_outcomes(run)
+    vals = [o[1] if o[0] == 'value' else f'raises {o[1]}' for o in outs]
+    cons = f'{m.module.name}::{m.qualname}::a re-armed (hidden) switch verdict is read like the re-armed results'
+    if len(vals) == 1 and isinstance(vals[0], dict) and vals[0].get('y') == 22 and vals[0].get('x') == 11:
+        out.ok('RD-3', cons, ctx.p.loc(m, m.node), 'the hidden verdict and the hidden case result are both read')
+    else:
+        out.bad('RD-3', cons, ctx.p.loc(m, m.node),
+                f'with the verdict of a switch predecessor hidden by a re-iteration the argument builder yields {vals}: results are read '
+                f'with hidden entries included but the verdict is not, so a consumer outside the subgraph that was released just before the '
+                f're-iteration fails with the engine\'s own AttributeError (None has no node_id) instead of being invoked',
+                props={'C03', 'C09', 'C11'})
